@@ -83,6 +83,8 @@ def check_case(case):
                 raise pddl.Invalid("type declared twice")
             seen.add(c)
     dom, objects, T, names = build_domain(decl)
+    if case.get("reqs") is not None:
+        dom["requirements"] = REQS[case["reqs"] % len(REQS)]
     for n in names:   # acyclic
         if len(T.ancestors(n)) > len(names) + 1 or T.ancestors(n)[-1] != "object":
             raise pddl.Invalid("cyclic")
@@ -324,6 +326,10 @@ def forests(n, max_depth=4):
             yield pairs
 
 
+# :adl implies :typing; what the section lists (and in which order) has no bearing on what is declared and checked
+REQS = [[":adl"], [":adl", ":fluents"], [":typing", ":strips"], [":strips", ":equality", ":typing", ":fluents", ":conditional-effects"]]
+
+
 def chunk_cases(tier, chunk):
     n_max, part, nparts, cap = chunk
     k = 0
@@ -336,8 +342,9 @@ def chunk_cases(tier, chunk):
             if cap and len(vs) > cap:
                 step = len(vs) / cap
                 vs = [vs[int(i * step)] for i in range(cap)]
-            for d in vs:
-                yield {"decl": d}
+            for j, d in enumerate(vs):
+                # every third rendering is written under another legitimate requirements line (REQS)
+                yield {"decl": d, "reqs": (j // 3) % len(REQS)} if j % 3 == 1 else {"decl": d}
 
 
 def gen(ch, tier):
@@ -352,7 +359,11 @@ def gen(ch, tier):
         T[c] = 1 if p == "object" else T[p] + 1
         pairs.append([c, p])
     pairs = ch.shuffle(pairs)
-    return {"decl": draw_decl(ch, pairs)}
+    case = {"decl": draw_decl(ch, pairs)}
+    side = ch.side("reqs")
+    if side.flag(0.35):
+        case["reqs"] = side.int(0, len(REQS) - 1)
+    return case
 
 
 def draw_decl(ch, pairs):
